@@ -12,14 +12,22 @@ import Mdsort.Proofs.EvalAttCond
 namespace Mdsort.Proofs
 open Mdsort Mdsort.Model Mdsort.Spec
 
-/-- The match list against the specification state: pending (part, action) pairs, and
-`hasPass` = a pass was seen in the current block or in an enclosing one. -/
-structure RelA (L : Nat) (ml : MatchList) (pend : List (Nat × Expr)) (hasPass : Bool) : Prop where
-  noBrk : hasTy ml .brk = false
+/-- The match list against the specification state: pending (part, action) pairs,
+`hasPass` = a pass was seen in the current block or in an enclosing one, `hasBrk` = a BREAK entry
+is in the list (between the `break` of a rule and the end of the block it leaves). -/
+structure RelG (L : Nat) (ml : MatchList) (pend : List (Nat × Expr)) (hasPass hasBrk : Bool) : Prop where
+  brk : hasTy ml .brk = hasBrk
   pass : hasTy ml .pass = hasPass
   plan : planP (keysP ml) = planP (pend.filterMap actKeyP)
   acts : ∀ a ∈ pend, isActionExpr a.2 = true
   paths : PathInv L ml
+
+/-- The invariant outside the stretch between a `break` and the end of its block. -/
+abbrev RelA (L : Nat) (ml : MatchList) (pend : List (Nat × Expr)) (hasPass : Bool) : Prop :=
+  RelG L ml pend hasPass false
+
+theorem RelA.noBrk {L : Nat} {ml : MatchList} {pend : List (Nat × Expr)} {hp : Bool} (h : RelA L ml pend hp) :
+    hasTy ml .brk = false := RelG.brk h
 
 theorem att_filterMap_drop (pend : List (Nat × Expr)) :
     (pend.filterMap actKeyP).map dropPart = (pend.map (·.2)).filterMap actKey := by
@@ -33,16 +41,16 @@ theorem att_filterMap_drop (pend : List (Nat × Expr)) :
 
 theorem RelA.toRel {L : Nat} {ml : MatchList} {pend : List (Nat × Expr)} {hp : Bool} (h : RelA L ml pend hp) :
     Rel L ml (pend.map (·.2)) hp where
-  noBrk := h.noBrk
-  pass := h.pass
+  noBrk := RelG.brk h
+  pass := RelG.pass h
   plan := by
     rw [keysOf_eq_map, ← att_filterMap_drop]
-    exact planOf_of_planP h.plan
+    exact planOf_of_planP (RelG.plan h)
   acts := by
     intro a ha
     obtain ⟨x, hx, rfl⟩ := List.mem_map.1 ha
-    exact h.acts x hx
-  paths := h.paths
+    exact RelG.acts h x hx
+  paths := RelG.paths h
 
 theorem att_inert_keysP {X : MatchList} (hX : ∀ m ∈ X, Inert m) : keysP X = [] := by
   unfold keysP
@@ -51,23 +59,23 @@ theorem att_inert_keysP {X : MatchList} (hX : ∀ m ∈ X, Inert m) : keysP X = 
   have := (hX m hm).1
   simp [realAct, this]
 
-theorem RelA.append_inert {L : Nat} {ml : MatchList} {pend : List (Nat × Expr)} {hp : Bool} (hL : 0 + 1 + L < PATH_MAX)
-    (h : RelA L ml pend hp) {X : MatchList} (hX : ∀ m ∈ X, Inert m) : RelA L (ml ++ X) pend hp where
-  noBrk := by rw [hasTy_append, h.noBrk, inert_hasTy hX _ (by decide)]; rfl
+theorem RelG.append_inert {L : Nat} {ml : MatchList} {pend : List (Nat × Expr)} {hp hb : Bool} (hL : 0 + 1 + L < PATH_MAX)
+    (h : RelG L ml pend hp hb) {X : MatchList} (hX : ∀ m ∈ X, Inert m) : RelG L (ml ++ X) pend hp hb where
+  brk := by rw [hasTy_append, h.brk, inert_hasTy hX _ (by decide)]; simp
   pass := by rw [hasTy_append, h.pass, inert_hasTy hX _ (by decide)]; simp
   plan := by rw [keysP_append, att_inert_keysP hX, List.append_nil]; exact h.plan
   acts := h.acts
   paths := h.paths.append (inert_pathInv hL hX)
 
 /-- One executed action appended through `matches_append` on part `mh.part`. -/
-theorem RelA.step {env : Env} {L : Nat} (hctx : PCtx env L) {ml : MatchList} {pend : List (Nat × Expr)} {hp : Bool}
-    (h : RelA L ml pend hp) (mh : Match) (hact : realAct mh.ty = true) (hok : okEntry L mh)
+theorem RelG.step {env : Env} {L : Nat} (hctx : PCtx env L) {ml : MatchList} {pend : List (Nat × Expr)} {hp hb : Bool}
+    (h : RelG L ml pend hp hb) (mh : Match) (hact : realAct mh.ty = true) (hok : okEntry L mh)
     (a : Nat × Expr) (hk : actKeyP a = some (mh.ty, mh.lno, mh.part)) (ha : isActionExpr a.2 = true) :
-    ∃ ml', matchesAppend env ml mh = (ml', false) ∧ RelA L ml' (pend ++ [a]) hp := by
+    ∃ ml', matchesAppend env ml mh = (ml', false) ∧ RelG L ml' (pend ++ [a]) hp hb := by
   obtain ⟨ml1, mh', he, hty, hlno, hpart, hok', hres⟩ := att_matchesAppend_ok hctx ml mh h.paths hok
   refine ⟨_, he, ?_⟩
   constructor
-  · rw [hasTy_append, hres.hasTy _ (by decide), h.noBrk, hasTy_cons, hty, realAct_ne hact (by decide)]; rfl
+  · rw [hasTy_append, hres.hasTy _ (by decide), h.brk, hasTy_cons, hty, realAct_ne hact (by decide)]; simp
   · rw [hasTy_append, hres.hasTy _ (by decide), h.pass, hasTy_cons, hty, realAct_ne hact (by decide)]; simp
   · have := att_plan_step h.plan hres hty hact
     rw [this, List.filterMap_append, hlno, hpart]
@@ -81,10 +89,10 @@ theorem RelA.step {env : Env} {L : Nat} (hctx : PCtx env L) {ml : MatchList} {pe
     simp only [List.mem_singleton] at hm
     rw [hm]; exact hok'
 
-theorem RelA.marker_pass {L : Nat} {ml : MatchList} {pend : List (Nat × Expr)} {hp : Bool} (hL : 0 + 1 + L < PATH_MAX)
-    (h : RelA L ml pend hp) (lno part : Nat) :
-    RelA L (ml ++ [{ ty := .pass, lno := lno, part := part }]) pend true where
-  noBrk := by rw [hasTy_append, h.noBrk]; rfl
+theorem RelG.marker_pass {L : Nat} {ml : MatchList} {pend : List (Nat × Expr)} {hp hb : Bool} (hL : 0 + 1 + L < PATH_MAX)
+    (h : RelG L ml pend hp hb) (lno part : Nat) :
+    RelG L (ml ++ [{ ty := .pass, lno := lno, part := part }]) pend true hb where
+  brk := by rw [hasTy_append, h.brk]; simp [hasTy]
   pass := by rw [hasTy_append]; simp [hasTy]
   plan := by
     rw [keysP_append, keysP_cons]
@@ -99,10 +107,38 @@ theorem RelA.marker_pass {L : Nat} {ml : MatchList} {pend : List (Nat × Expr)} 
     rw [hm]
     exact ⟨Nat.zero_le _, hL⟩
 
-theorem RelA.remove_pass {L : Nat} {ml : MatchList} {pend : List (Nat × Expr)} {hp : Bool} (h : RelA L ml pend hp) :
-    RelA L (ml.filter (·.ty != .pass)) pend false where
-  noBrk := by rw [hasTy_filter_ne _ _ _ (by decide)]; exact h.noBrk
+/-- The marker of a `break` appended (`expr_eval_break`). -/
+theorem RelG.marker_brk {L : Nat} {ml : MatchList} {pend : List (Nat × Expr)} {hp hb : Bool} (hL : 0 + 1 + L < PATH_MAX)
+    (h : RelG L ml pend hp hb) (lno part : Nat) :
+    RelG L (ml ++ [{ ty := .brk, lno := lno, part := part }]) pend hp true where
+  brk := by rw [hasTy_append]; simp [hasTy]
+  pass := by rw [hasTy_append, h.pass]; simp [hasTy]
+  plan := by
+    rw [keysP_append, keysP_cons]
+    have : realAct MType.brk = false := by decide
+    simp only [this]
+    simpa using h.plan
+  acts := h.acts
+  paths := by
+    apply h.paths.append
+    intro m hm
+    simp only [List.mem_singleton] at hm
+    rw [hm]
+    exact ⟨Nat.zero_le _, hL⟩
+
+theorem RelG.remove_pass {L : Nat} {ml : MatchList} {pend : List (Nat × Expr)} {hp hb : Bool} (h : RelG L ml pend hp hb) :
+    RelG L (ml.filter (·.ty != .pass)) pend false hb where
+  brk := by rw [hasTy_filter_ne _ _ _ (by decide)]; exact h.brk
   pass := hasTy_filter_ne_self _ _
+  plan := by rw [keysP_filter_ne _ _ (by decide)]; exact h.plan
+  acts := h.acts
+  paths := h.paths.filter _
+
+/-- Removing the break markers (`matches_remove(ml, EXPR_TYPE_BREAK)` in `expr_eval_block`). -/
+theorem RelG.remove_brk {L : Nat} {ml : MatchList} {pend : List (Nat × Expr)} {hp hb : Bool} (h : RelG L ml pend hp hb) :
+    RelA L (ml.filter (·.ty != .brk)) pend hp where
+  brk := hasTy_filter_ne_self _ _
+  pass := by rw [hasTy_filter_ne _ _ _ (by decide)]; exact h.pass
   plan := by rw [keysP_filter_ne _ _ (by decide)]; exact h.plan
   acts := h.acts
   paths := h.paths.filter _
@@ -133,13 +169,23 @@ theorem att_blockWrap_break {L : Nat} {st : St} {pend : List (Nat × Expr)} {hp 
     blockWrap (t, { st with ml := st.ml ++ [{ ty := .brk, lno := lno, part := part }] }) = (.nomatch, st) :=
   blockWrap_break h.toRel lno part t ht
 
+/-- The body finished (match or no match) with a BREAK entry in the list: no match, the BREAK
+entries removed, everything else kept. -/
+theorem att_blockWrap_brk {L : Nat} {st : St} {pend : List (Nat × Expr)} {hp : Bool} (h : RelG L st.ml pend hp true)
+    (t : Tri) (ht : t ≠ .error) :
+    blockWrap (t, st) = (.nomatch, { st with ml := st.ml.filter (·.ty != .brk) }) := by
+  cases t
+  · simp [blockWrap, h.brk]
+  · simp [blockWrap, h.brk]
+  · exact absurd rfl ht
+
 /-! ## actions on part `k` -/
 
 theorem att_exprAppend_step {env : Env} {L : Nat} (hctx : PCtx env L) {o : Bool} {f : MFlags} {st : St}
-    {pend : List (Nat × Expr)} {hp : Bool} (h : RelA L st.ml pend hp) (hs : SeenInv o f st) (mh : Match)
+    {pend : List (Nat × Expr)} {hp hb : Bool} (h : RelG L st.ml pend hp hb) (hs : SeenInv o f st) (mh : Match)
     (hact : realAct mh.ty = true) (hok : okEntry L mh)
     (a : Nat × Expr) (hk : actKeyP a = some (mh.ty, mh.lno, mh.part)) (ha : isActionExpr a.2 = true) :
-    ∃ st', exprAppend env mh st .match = (.match, st') ∧ RelA L st'.ml (pend ++ [a]) hp ∧ SeenInv o f st' := by
+    ∃ st', exprAppend env mh st .match = (.match, st') ∧ RelG L st'.ml (pend ++ [a]) hp hb ∧ SeenInv o f st' := by
   obtain ⟨ml', h1, h2⟩ := h.step hctx mh hact hok a hk ha
   unfold exprAppend
   rw [h1]
@@ -149,9 +195,9 @@ theorem att_exprAppend_step {env : Env} {L : Nat} (hctx : PCtx env L) {o : Bool}
 the invariant moves on by one pending action tagged `k`. -/
 theorem att_act_eval {env : Env} {L : Nat} (hctx : PCtx env L) (root : Msg) {o : Bool} {f : MFlags} (a : Expr)
     (k : Nat) (m : Msg) (ha : isActionExpr a = true) (hok : okA L o k a) (st : St) (pend : List (Nat × Expr))
-    (hp : Bool) (hR : RelA L st.ml pend hp) (hs : SeenInv o f st) :
+    (hp : Bool) {hb : Bool} (hR : RelG L st.ml pend hp hb) (hs : SeenInv o f st) :
     (actErr a = true ∧ (eval env root a k m st).1 = .error) ∨
-    (actErr a = false ∧ ∃ st', eval env root a k m st = (.match, st') ∧ RelA L st'.ml (pend ++ [(k, a)]) hp ∧
+    (actErr a = false ∧ ∃ st', eval env root a k m st = (.match, st') ∧ RelG L st'.ml (pend ++ [(k, a)]) hp hb ∧
       SeenInv o f st') := by
   have hL := hctx.hL
   have ok0 : ∀ x : Match, x.maildir = [] → x.subdir = [] → okEntry L x := by
